@@ -150,6 +150,9 @@ def run_case(case):
             res.viol("rows_from_cursor_down_not_blank_on_exit", below=[show(r) for r in tape[cur_row:]][:6], case=case)
         elif not term.cursor_visible:
             res.viol("cursor_left_hidden", case=case)
+        elif case.get("keep_last_line") and cur_row_before < len(tape) and tape[cur_row_before] != tape_before[cur_row_before]:
+            # keep_last_line: "Causes the cursor to be moved down one line on leaving context" - the line the cursor was on stays
+            res.viol("last_line_not_kept_on_exit", line=show(tape_before[cur_row_before]), now=show(tape[cur_row_before]), case=case)
         res.evals = max(1, nsteps)
     finally:
         pty.close()
